@@ -123,17 +123,17 @@ Proof. exact zero_count_stream_guest_lemma. Qed.
 Theorem C18_mark_zero_noop : forall ps d off v, Dirty.mark ps d off 0 v = d.
 Proof. exact mark_zero. Qed.
 
-(* the composed model against the executable checker.
-   FULL statement (not proved in full):  forall c, wf_case c = true -> ok_C18 c (run_C18 c) = true.
-   Proved: (a) for every entry point, layer and well-formed case the composed model marks no page;
-   (b) the whole checker verdict for the empty-buffer / zero-sized-object forms at all three layers
-   and the four zero-count stream forms at slice and region level ([covered18]).  Missing: the
-   byte/result half of the verdict for the guest-level stream forms and for the accessor-shaped
-   entry points (ZST copies, empty arrays, refs, slice-to-slice copies) THROUGH the composition
-   run_C18 - their component models are covered by the theorems above (C18_zst_copy_noop,
-   C18_empty_array_copy_noop, C18_empty_slice_copy_noop, C18_zero_count_stream_guest), and the
-   composition itself is exercised on every run by the correspondence (v_ok is computed on the
-   real observation, v_model compared with it). *)
+(* the composed model against the executable checker, for EVERY well-formed case (wf_case: what the
+   suite decoder accepts): every entry point (empty-buffer / zero-sized-object forms, the four
+   zero-count stream forms with the six stream kinds, ZST element copies, arrays of zero-sized
+   elements or of no elements, references to zero-sized objects, slice-to-slice copies with an empty
+   side), every layer (slice, region, guest memory), every address, both build profiles: the model
+   never panics, leaves memory, caller's buffer / stream and bitmaps untouched, and reports Ok
+   (count 0 where the text states the count) wherever the property demands success.
+   C18_model_ok_partial (the subset of entry points proved first) is kept; it is subsumed. *)
+Theorem C18_model_ok : forall c, wf_case c = true -> ok_C18 c (run_C18 c) = true.
+Proof. exact model_ok_lemma. Qed.
+
 Theorem C18_model_no_marks : forall c, wf_case c = true -> o_dirty (run_C18 c) = [].
 Proof. exact model_no_marks_lemma. Qed.
 
@@ -166,5 +166,6 @@ Print Assumptions C18_zst_copy_marks.
 Print Assumptions C18_zero_count_stream_ok.
 Print Assumptions C18_zero_count_stream_guest.
 Print Assumptions C18_mark_zero_noop.
+Print Assumptions C18_model_ok.
 Print Assumptions C18_model_no_marks.
 Print Assumptions C18_model_ok_partial.
